@@ -987,7 +987,7 @@ fn placement_twins<H: ArchH>(rep: &mut Report, p: &mut Prng, id: u64) {
     for i in (1..order.len()).rev() {
         order.swap(i, p.below(i as u64 + 1) as usize);
     }
-    let region: u64 = *p.pick(&[0x20_0000u64, 0x7f11_0000_0000, 0x5555_0000_0000]);
+    let region: u64 = *p.pick(&[0x20_0000u64, 0x7f11_0000_0000, 0x5555_0000_0000, 0xffff_8000_0010_0000, 0xffff_ff80_0020_0000]);
     let mut cur = region;
     let mut mods_b: Vec<Option<ModSpec>> = vec![None; mods_a.len()];
     for &i in &order {
